@@ -174,8 +174,10 @@ extern "C" void vf_check() {
     vf_assert(owner == 0, "C07 critical section left marked");
     vf_join();
     // C08: a mutex whose every ownership has been released can be locked again (not 'locked with no owner')
-    mutex::ownership again = mx.try_lock();
-    vf_assert(!!again, "C08 mutex stays locked although every ownership was released (lost request / orphaned lock)");
+    // (the ownership is placed in a buffer and never destroyed: the unlock paths are exercised by the threads, not here)
+    alignas(mutex::ownership) static unsigned char again_buf[sizeof(mutex::ownership)];
+    mutex::ownership *again = new (again_buf) mutex::ownership(mx.try_lock());
+    vf_assert(!!*again, "C08 mutex stays locked although every ownership was released (lost request / orphaned lock)");
 #if FIFO && NT >= 3
     // both were waiting (suspended or blocked) => first come, first served
     if (st[2][0].granted && st[3][0].granted && !st[2][0].try_failed && !st[3][0].try_failed)
